@@ -29,7 +29,7 @@ func main() {
 	logger := zap.NewNop()
 
 	srv := server.NewServer()
-	handler := protocol.ServerHandler(newServerDispatcher(srv), nil)
+	handler := newHandler(srv)
 
 	stream := jsonrpc2.NewStream(stdrwc{})
 	conn := jsonrpc2.NewConn(stream)
@@ -42,6 +42,32 @@ func main() {
 
 	if err := conn.Err(); err != nil {
 		os.Exit(1)
+	}
+}
+
+// newHandler returns the JSON-RPC handler that serves srv.
+func newHandler(srv *server.Server) jsonrpc2.Handler {
+	return didChangeHandler(srv, protocol.ServerHandler(newServerDispatcher(srv), nil))
+}
+
+// didChangeHandler decodes textDocument/didChange itself and hands every other
+// message to next. protocol.TextDocumentContentChangeEvent has a non-pointer
+// Range, so after the generic decoding a change without range (replace the
+// whole document) and a change with the explicit range 0:0-0:0 (an insertion
+// at the very start of the document) cannot be told apart.
+func didChangeHandler(srv *server.Server, next jsonrpc2.Handler) jsonrpc2.Handler {
+	return func(ctx context.Context, reply jsonrpc2.Replier, req jsonrpc2.Request) error {
+		if req.Method() != protocol.MethodTextDocumentDidChange {
+			return next(ctx, reply, req)
+		}
+		var params struct {
+			TextDocument   protocol.VersionedTextDocumentIdentifier `json:"textDocument"`
+			ContentChanges []server.ContentChange                   `json:"contentChanges"`
+		}
+		if err := json.Unmarshal(req.Params(), &params); err != nil {
+			return reply(ctx, nil, fmt.Errorf("%s: %w", jsonrpc2.ErrParse, err))
+		}
+		return reply(ctx, nil, srv.DidChangeContent(ctx, params.TextDocument.URI, params.ContentChanges))
 	}
 }
 
